@@ -159,7 +159,9 @@ class Ctx:
         self.histogram = {}
         self.t0 = time.time()
         self.max_mismatches = 25
-        self.budget_s = float(os.environ.get('VERIF_BUDGET_S', '600' if tier == 'thorough' else '75'))
+        # time budget of the generating layers (the concurrency check needs longer for its fixed pairs x schedules)
+        quick_budget = {'C20': '130'}.get(pid, '75')
+        self.budget_s = float(os.environ.get('VERIF_BUDGET_S', '600' if tier == 'thorough' else quick_budget))
         self.notes = []
 
     def thorough(self):
